@@ -75,8 +75,8 @@ class GridFlow(WidgetWrap[Pile], WidgetContainerMixin, WidgetContainerListConten
         self._contents: MonitoredFocusList[tuple[Widget, tuple[Literal[WHSettings.GIVEN], int]]] = MonitoredFocusList(
             prepared_contents, focus=focus_position
         )
-        self._contents.set_modified_callback(self._invalidate)
-        self._contents.set_focus_changed_callback(lambda f: self._invalidate())
+        self._contents.set_modified_callback(self._cells_or_focus_changed)
+        self._contents.set_focus_changed_callback(lambda f: self._cells_or_focus_changed())
         self._contents.set_validate_contents_modified(self._contents_modified)
         self._cell_width = cell_width
         self.h_sep = h_sep
@@ -84,6 +84,7 @@ class GridFlow(WidgetWrap[Pile], WidgetContainerMixin, WidgetContainerListConten
         self.align = align
         self._cache_maxcol = self._get_maxcol(())
         super().__init__(self.generate_display_widget((self._cache_maxcol,)))
+        self._display_widget_stale = False
 
     def _repr_words(self) -> list[str]:
         if len(self.contents) > 1:
@@ -119,6 +120,11 @@ class GridFlow(WidgetWrap[Pile], WidgetContainerMixin, WidgetContainerListConten
     def _invalidate(self) -> None:
         self._cache_maxcol = None
         super()._invalidate()
+
+    def _cells_or_focus_changed(self) -> None:
+        # the display widget describes other cells / another focus from now on
+        self._display_widget_stale = True
+        self._invalidate()
 
     def _contents_modified(
         self,
@@ -366,6 +372,7 @@ class GridFlow(WidgetWrap[Pile], WidgetContainerMixin, WidgetContainerListConten
 
         self._cache_maxcol = maxcol
         self._w = self.generate_display_widget((maxcol,))
+        self._display_widget_stale = False
 
         return self._w
 
@@ -432,7 +439,7 @@ class GridFlow(WidgetWrap[Pile], WidgetContainerMixin, WidgetContainerListConten
         #     Divider(), # possibly
         #     ...])
 
-        if self._cache_maxcol is None:
+        if self._display_widget_stale:
             # the cells or the focus were changed while the display widget was handling the event
             # (by a cell's own handler): it no longer describes this widget
             return
